@@ -408,6 +408,10 @@ namespace OP2Utility::Archive
 			}
 		}
 		m_Count = packedFileCount;
+
+		if (m_Count > m_StringTable.size()) {
+			throw std::runtime_error("The index table lists more files than the string table names in volume " + m_ArchiveFilename);
+		}
 	}
 
 	VolFile::SectionHeader::SectionHeader() {}
